@@ -300,3 +300,23 @@ def selfcheck(what, tree, names, sampler, reference, funcs=None, n=60, rtol=1e-9
                 raise RuntimeError(f'translator self-check {what}: translation gives {g!r}, the code {w!r} at {env}')
     SELFCHECKS[what] = {'points': n, 'max_rel_deviation': worst}
     return worst
+
+
+# ----------------------------------------------------------------------------------------------- symbolic atoms (names, opaque values)
+
+class Atom:
+    """an opaque value of which only equality with other atoms of the same kind can be asked (a patch name, a value, …).  All atoms of a
+    kind hash alike, so a Python dictionary or set holding them decides membership by `==`, which consults the decision oracle; atoms of
+    different kinds (and atoms vs anything else) are never equal."""
+    __slots__ = ('kind', 'name')
+
+    def __init__(self, kind, name): self.kind, self.name = kind, name
+    def __hash__(self): return hash(('Atom', self.kind))
+    def __eq__(self, other):
+        if not isinstance(other, Atom) or other.kind != self.kind: return False
+        if other.name == self.name: return True
+        a, b = sorted([self.name, other.name])
+        return bool(Cond(('eq', var(a), var(b))))
+    def __ne__(self, other): return not self.__eq__(other)
+    def __repr__(self): return self.name
+    __str__ = __repr__
